@@ -83,7 +83,10 @@ func (its *ordaMap) Put(key string, value interface{}) (interface{}, errors.Orda
 	if key == "" || types.IsNull(value) {
 		return nil, errors.DatatypeIllegalParameters.New(its.L(), "neither empty key nor null value is not allowed")
 	}
-	jsonSupportedType := types.ConvertToJSONSupportedValue(value)
+	jsonSupportedType, cErr := types.ConvertToReplicatedValue(value)
+	if cErr != nil {
+		return nil, errors.DatatypeIllegalParameters.New(its.L(), cErr.Error())
+	}
 
 	op := operations.NewPutOperation(key, jsonSupportedType)
 	return its.SentenceInTx(its.TxCtx, op, true)
